@@ -274,8 +274,8 @@ func init() {
 			return strings.HasPrefix(n, "S29-") || strings.HasPrefix(n, "S8-") || strings.HasPrefix(n, "S26-")
 		}), Replay: replayC14})
 	registerCheck(&CheckDef{Prop: "C04", Level: "model_checking", Technique: tE1,
-		Quick:       []Run{{Scenario: "si-basic", Depth: 6, MapModes: []int{1}}, {Scenario: "gang-si-Soft", Depth: 6, MapModes: []int{1}}, {Scenario: "gang-si-Hard", Depth: 5, MapModes: []int{1}}, {Scenario: "reserve-si", Depth: 6, MapModes: []int{1}}, {Scenario: "gang-si-same", Depth: 6, MapModes: []int{1}}, {Scenario: "reserve-bind-si", Depth: 6, MapModes: []int{1}}},
-		Thorough:    []Run{{Scenario: "gang-si-same", Depth: 9, MapModes: []int{1}}, {Scenario: "reserve-bind-si", Depth: 9, MapModes: []int{1, 2}}, {Scenario: "si-basic", Depth: 8, MapModes: []int{1, 2}}, {Scenario: "gang-si-Soft", Depth: 8, MapModes: []int{1, 2}}, {Scenario: "gang-si-Hard", Depth: 8, MapModes: []int{1}}, {Scenario: "reserve-si", Depth: 7, MapModes: []int{1}}},
+		Quick:       []Run{{Scenario: "si-basic", Depth: 6, MapModes: []int{1}}, {Scenario: "gang-si-Soft", Depth: 6, MapModes: []int{1}}, {Scenario: "gang-si-Hard", Depth: 5, MapModes: []int{1}}, {Scenario: "reserve-si", Depth: 6, MapModes: []int{1}}, {Scenario: "gang-si-same", Depth: 6, MapModes: []int{1}}, {Scenario: "reserve-bind-si", Depth: 6, MapModes: []int{1}}, {Scenario: "gang-si-reversed", Depth: 7, MapModes: []int{1}}},
+		Thorough:    []Run{{Scenario: "gang-si-reversed", Depth: 9, MapModes: []int{1}}, {Scenario: "gang-si-same", Depth: 9, MapModes: []int{1}}, {Scenario: "reserve-bind-si", Depth: 9, MapModes: []int{1, 2}}, {Scenario: "si-basic", Depth: 8, MapModes: []int{1, 2}}, {Scenario: "gang-si-Soft", Depth: 8, MapModes: []int{1, 2}}, {Scenario: "gang-si-Hard", Depth: 8, MapModes: []int{1}}, {Scenario: "reserve-si", Depth: 7, MapModes: []int{1}}},
 		QuickBudget: 150 * time.Second, ThoroughBudget: 12 * time.Minute})
 	registerCheck(&CheckDef{Prop: "C06", Level: "model_checking", Technique: tE1,
 		Quick:       []Run{{Scenario: "gang-Soft", Depth: 6, MapModes: []int{1}}, {Scenario: "gang-Hard", Depth: 6, MapModes: []int{1}}, {Scenario: "gang-sparse", Depth: 6, MapModes: []int{1}}},
